@@ -70,18 +70,31 @@ theorem hdrWant_take (f : Frame) (j : Nat) :
 end VncModel.Ws
 namespace VncModel.Ws
 
-/-- a valid frame never carries a reserved opcode -/
-theorem not_reserved_of_ok (f : Frame) (co : Byte) (hok : f.ok co) : isReservedOp f.opcode = false := by
+/-- a frame whose header is acceptable never carries a reserved opcode -/
+theorem not_reserved_of_hok (f : Frame) (co : Byte) (hok : f.hok co) : isReservedOp f.opcode = false := by
   obtain ⟨_, hctl, hdat⟩ := hok
   by_cases hc : f.isControl = true
-  · rcases (hctl hc).2.1 with h | h <;> rw [h] <;> decide
+  · rcases (hctl hc).2.1 with h | h | h <;> rw [h] <;> decide
   · have hc' : f.isControl = false := by simpa using hc
     obtain ⟨_, h4⟩ := hdat hc'
     by_cases h0 : f.opcode = opContinuation
     · rw [h0]; decide
     · have : f.effOp co = f.opcode := by simp [Frame.effOp, hc', h0]
       rw [this] at h4
-      rcases h4 with h4 | ⟨h4, _⟩ <;> rw [h4] <;> decide
+      rcases h4 with h4 | h4 <;> rw [h4] <;> decide
+
+theorem not_reserved_of_ok (f : Frame) (co : Byte) (hok : f.ok co) : isReservedOp f.opcode = false :=
+  not_reserved_of_hok f co hok.hok
+
+theorem effOp_isControl_hok (f : Frame) (co : Byte) (hok : f.hok co) :
+    ((f.effOp co) &&& 0x08 != 0) = f.isControl := by
+  obtain ⟨_, _, h3⟩ := hok
+  by_cases hc : f.isControl = true
+  · simp only [Frame.effOp, hc, if_true]; exact hc
+  · have hc' : f.isControl = false := by simpa using hc
+    obtain ⟨_, h4⟩ := h3 hc'
+    rw [hc']
+    rcases h4 with h4 | h4 <;> rw [h4] <;> decide
 
 theorem parse2_short (f : Frame) (j : Nat) (hj : j < 2) (opc fin : Byte) (pl : Nat) (co' : Byte) :
     parse2 (ctxAtHeader (f.header.take j) opc fin pl co') = .pending := by
@@ -91,15 +104,15 @@ theorem parse2_short (f : Frame) (j : Nat) (hj : j < 2) (opc fin : Byte) (pl : N
   · simp [parse2, ctxAtHeader]
   · rw [htl]; simp [parse2, ctxAtHeader]
 
-theorem parse2_ok (f : Frame) (co co' : Byte) (hok : f.ok co) (j : Nat) (hj : 2 ≤ j)
+theorem parse2_hok (f : Frame) (co co' : Byte) (hok : f.hok co) (j : Nat) (hj : 2 ≤ j)
     (hco : co' = co ∨ co' = f.nextCo co) (opc fin : Byte) (pl : Nat) :
     parse2 (ctxAtHeader (f.header.take j) opc fin pl co') =
       .ok (ctxAtHeader (f.header.take j) (f.effOp co) f.fin f.l7 (f.nextCo co)) := by
   obtain ⟨tl, htl⟩ := header_cons f
   obtain ⟨hl7, hmask, _, _⟩ := b1_facts f
   obtain ⟨k, rfl⟩ : ∃ k, j = k + 2 := ⟨j - 2, by omega⟩
-  have hres : isReservedOp f.opcode = false := not_reserved_of_ok f co hok
-  have heffc := effOp_isControl f co hok
+  have hres : isReservedOp f.opcode = false := not_reserved_of_hok f co hok
+  have heffc := effOp_isControl_hok f co hok
   obtain ⟨_, hctl, hdat⟩ := hok
   rw [htl]
   simp only [List.take_succ_cons, parse2, ctxAtHeader, Ctx.isControl]
@@ -137,6 +150,14 @@ theorem parse2_ok (f : Frame) (co co' : Byte) (hok : f.ok co) (j : Nat) (hj : 2 
 
 end VncModel.Ws
 namespace VncModel.Ws
+theorem parse2_ok (f : Frame) (co co' : Byte) (hok : f.ok co) (j : Nat) (hj : 2 ≤ j)
+    (hco : co' = co ∨ co' = f.nextCo co) (opc fin : Byte) (pl : Nat) :
+    parse2 (ctxAtHeader (f.header.take j) opc fin pl co') =
+      .ok (ctxAtHeader (f.header.take j) (f.effOp co) f.fin f.l7 (f.nextCo co)) :=
+  parse2_hok f co co' hok.hok j hj hco opc fin pl
+end VncModel.Ws
+
+namespace VncModel.Ws
 
 theorem finishHeader_incomplete (f : Frame) (j : Nat) (hj2 : j < f.header.length)
     (op fin co'' : Byte) (e : Env) :
@@ -159,10 +180,9 @@ theorem finishHeader_incomplete (f : Frame) (j : Nat) (hj2 : j < f.header.length
     simp [h1] at hl; omega
   simp only [c1, c2, c3, if_false]
 
-theorem finishHeader_complete (f : Frame) (co : Byte) (hok : f.ok co) (e : Env) :
+theorem finishHeader_complete' (f : Frame) (co : Byte) (hlt : f.payload.length < 2 ^ 64) (e : Env) :
     finishHeader (ctxAtHeader f.header (f.effOp co) f.fin f.l7 (f.nextCo co)) e =
       ⟨ctxInFrame f co 0 [] [] (some f.header.length) .headerPending, e, .dataNeeded, .again, []⟩ := by
-  have hlt := hok.1
   unfold finishHeader
   by_cases h1 : f.payload.length < 126
   · have hl7 : f.l7 = f.payload.length := by simp [Frame.l7, h1]
@@ -218,28 +238,39 @@ theorem take_append_take_drop (H : List Byte) (j t : Nat) :
     H.take j ++ (H.drop j).take t = H.take (j + t) := by
   rw [List.take_add]
 
-/-- what `readHeader` does on a strict prefix of the header of a valid frame -/
-theorem readHeader_cases (f : Frame) (fs : List Frame) (co co' : Byte) (j : Nat) (opc fin : Byte) (pl : Nat)
-    (e : Env) (body : List Byte) (hok : f.ok co) (hj : j < f.header.length)
-    (hco : co' = co ∨ (2 ≤ j ∧ co' = f.nextCo co))
-    (hpend : e.pending = f.header.drop j ++ body) (hff : e.FaultFree) (hs : e.Safe) :
+/-- what `readHeader` does on a strict prefix of a header `H`, given how `parse2` and
+`finishHeader` treat the prefixes of `H` (instantiated for valid frames, Close frames and headers
+with a non-minimal length field) -/
+theorem readHeader_generic (H : List Byte) (OP FIN : Byte) (L7 : Nat) (CO : Byte) (okco : Byte → Prop)
+    (OUT : Env → HdrOut) (hH : 6 ≤ H.length ∧ H.length ≤ 14)
+    (hwant : ∀ j, j ≤ H.length → hdrWant (H.take j) = if 2 ≤ j then H.length else 6)
+    (hshort : ∀ j, j < 2 → ∀ opc fin pl co', parse2 (ctxAtHeader (H.take j) opc fin pl co') = .pending)
+    (hp2 : ∀ j, 2 ≤ j → j ≤ H.length → ∀ opc fin pl co', okco co' →
+      parse2 (ctxAtHeader (H.take j) opc fin pl co') = .ok (ctxAtHeader (H.take j) OP FIN L7 CO))
+    (hCO : okco CO)
+    (hinc : ∀ j, j < H.length → ∀ e, finishHeader (ctxAtHeader (H.take j) OP FIN L7 CO) e =
+      ⟨ctxAtHeader (H.take j) OP FIN L7 CO, e, .headerPending, .again, []⟩)
+    (hcomp : ∀ e, finishHeader (ctxAtHeader H OP FIN L7 CO) e = OUT e)
+    (j : Nat) (opc fin : Byte) (pl : Nat) (co' : Byte) (e : Env) (body : List Byte)
+    (hj : j < H.length) (hco : okco co')
+    (hpend : e.pending = H.drop j ++ body) (hff : e.FaultFree) (hs : e.Safe) :
     ∃ e', e'.FaultFree ∧ e'.Safe ∧
-      ((∃ j' opc' fin' pl' co'', j' < f.header.length ∧ (co'' = co ∨ (2 ≤ j' ∧ co'' = f.nextCo co)) ∧
-          readHeader (ctxAtHeader (f.header.take j) opc fin pl co') e =
-            ⟨ctxAtHeader (f.header.take j') opc' fin' pl' co'', e', .headerPending, .again, []⟩ ∧
-          e'.pending = f.header.drop j' ++ body ∧ (e.Stuck ∨ j < j')) ∨
-       (readHeader (ctxAtHeader (f.header.take j) opc fin pl co') e =
-            ⟨ctxInFrame f co 0 [] [] (some f.header.length) .headerPending, e', .dataNeeded, .again, []⟩ ∧
-          e'.pending = body)) := by
-  obtain ⟨hH14, hH6⟩ := header_length_le f
+      ((∃ j' opc' fin' pl' co'', j' < H.length ∧ okco co'' ∧
+          readHeader (ctxAtHeader (H.take j) opc fin pl co') e =
+            ⟨ctxAtHeader (H.take j') opc' fin' pl' co'', e', .headerPending, .again, []⟩ ∧
+          e'.pending = H.drop j' ++ body ∧ (e.Stuck ∨ j < j')) ∨
+       (readHeader (ctxAtHeader (H.take j) opc fin pl co') e = OUT e' ∧ e'.pending = body)) := by
+  obtain ⟨hH6, hH14⟩ := hH
   have hBUF : (14 : Int) ≤ BUF := by simp [BUF, Gen.C09.decodeBufSize]
-  have hmiss := hdrMissing_atHeader f j (by omega) opc fin pl co'
-  have hnr : (ctxAtHeader (f.header.take j) opc fin pl co').nRead = j := by
+  have hmiss : hdrMissing (ctxAtHeader (H.take j) opc fin pl co') = ((if 2 ≤ j then H.length else 6 : Nat) : Int) - j := by
+    simp only [hdrMissing, ctxAtHeader, Ctx.nRead, hwant j (by omega), List.length_take]
+    congr 2; omega
+  have hnr : (ctxAtHeader (H.take j) opc fin pl co').nRead = j := by
     simp [ctxAtHeader, Ctx.nRead]; omega
   unfold readHeader
   rw [hnr, hmiss]
-  generalize hN : (if 2 ≤ j then f.header.length else 6 : Nat) = W
-  have hW : j < W ∧ W ≤ f.header.length := by
+  generalize hN : (if 2 ≤ j then H.length else 6 : Nat) = W
+  have hW : j < W ∧ W ≤ H.length := by
     rw [← hN]; split <;> omega
   obtain ⟨hff1, hs1, hc1⟩ := Env.read_cases e j ((W : Int) - j) (by omega) (by omega) hff hs
   generalize hr : e.read j ((W : Int) - j) = r at hff1 hs1 hc1
@@ -252,77 +283,118 @@ theorem readHeader_cases (f : Frame) (fs : List Frame) (co co' : Byte) (j : Nat)
     rw [hp1, hpend]
   · subst ho
     simp only
-    have htj : j + t ≤ f.header.length := by omega
-    have htake : e.pending.take t = (f.header.drop j).take t := by
+    have htj : j + t ≤ H.length := by omega
+    have htake : e.pending.take t = (H.drop j).take t := by
       rw [hpend, List.take_append_of_le_length (by simp; omega)]
-    have hdrop : e.pending.drop t = f.header.drop (j + t) ++ body := by
+    have hdrop : e.pending.drop t = H.drop (j + t) ++ body := by
       rw [hpend, List.drop_append_of_le_length (by simp; omega), List.drop_drop]
     have hhdr : ∀ h o fi p c, (ctxAtHeader h o fi p c).hdr = h := fun _ _ _ _ _ => rfl
     rw [htake, ctxAtHeader_set_hdr, hhdr, take_append_take_drop]
     by_cases hj1 : j + t < 2
-    · rw [parse2_short f (j + t) hj1]
+    · rw [hshort (j + t) hj1]
       simp only
       refine ⟨e1, hff1, hs1, Or.inl ⟨j + t, opc, fin, pl, co', by omega, ?_, rfl, ?_, Or.inr (by omega)⟩⟩
-      · rcases hco with h | ⟨h, _⟩
-        · exact Or.inl h
-        · omega
+      · exact hco
       · rw [hp1, hdrop]
-    · have hco2 : co' = co ∨ co' = f.nextCo co := by
-        rcases hco with h | ⟨_, h⟩
-        · exact Or.inl h
-        · exact Or.inr h
-      rw [parse2_ok f co co' hok (j + t) (by omega) hco2]
+    · rw [hp2 (j + t) (by omega) htj opc fin pl co' hco]
       simp only [ctxAtHeader_set_hdr, hhdr]
-      have hmiss2 := hdrMissing_atHeader f (j + t) htj (f.effOp co) f.fin f.l7 (f.nextCo co)
-      have h2le : (2 ≤ j + t) = True := by simp; omega
-      simp only [h2le, if_true] at hmiss2
-      have hnr2 : (ctxAtHeader (f.header.take (j + t)) (f.effOp co) f.fin f.l7 (f.nextCo co)).nRead = j + t := by
+      have hmiss2 : hdrMissing (ctxAtHeader (H.take (j + t)) OP FIN L7 CO) = (H.length : Int) - ((j + t : Nat) : Int) := by
+        have h2le : 2 ≤ j + t := by omega
+        simp only [hdrMissing, ctxAtHeader, Ctx.nRead, hwant (j + t) htj, h2le, if_true, List.length_take]
+        congr 2; omega
+      have hnr2 : (ctxAtHeader (H.take (j + t)) OP FIN L7 CO).nRead = j + t := by
         simp [ctxAtHeader, Ctx.nRead]; omega
-      have hpl2 : (ctxAtHeader (f.header.take (j + t)) (f.effOp co) f.fin f.l7 (f.nextCo co)).payloadLen = f.l7 := rfl
+      have hpl2 : (ctxAtHeader (H.take (j + t)) OP FIN L7 CO).payloadLen = L7 := rfl
       rw [hmiss2, hnr2, hpl2]
       -- after the (possible) second read: finishHeader on a prefix of length j2
-      have hfin : ∀ (j2 : Nat) (e2 : Env), j + t ≤ j2 → j2 ≤ f.header.length → e2.FaultFree → e2.Safe →
-          e2.pending = f.header.drop j2 ++ body →
+      have hfin : ∀ (j2 : Nat) (e2 : Env), j + t ≤ j2 → j2 ≤ H.length → e2.FaultFree → e2.Safe →
+          e2.pending = H.drop j2 ++ body →
           ∃ e', e'.FaultFree ∧ e'.Safe ∧
-          ((∃ j' opc' fin' pl' co'', j' < f.header.length ∧ (co'' = co ∨ (2 ≤ j' ∧ co'' = f.nextCo co)) ∧
-              finishHeader (ctxAtHeader (f.header.take j2) (f.effOp co) f.fin f.l7 (f.nextCo co)) e2 =
-                ⟨ctxAtHeader (f.header.take j') opc' fin' pl' co'', e', .headerPending, .again, []⟩ ∧
-              e'.pending = f.header.drop j' ++ body ∧ (e.Stuck ∨ j < j')) ∨
-           (finishHeader (ctxAtHeader (f.header.take j2) (f.effOp co) f.fin f.l7 (f.nextCo co)) e2 =
-                ⟨ctxInFrame f co 0 [] [] (some f.header.length) .headerPending, e', .dataNeeded, .again, []⟩ ∧
+          ((∃ j' opc' fin' pl' co'', j' < H.length ∧ okco co'' ∧
+              finishHeader (ctxAtHeader (H.take j2) OP FIN L7 CO) e2 =
+                ⟨ctxAtHeader (H.take j') opc' fin' pl' co'', e', .headerPending, .again, []⟩ ∧
+              e'.pending = H.drop j' ++ body ∧ (e.Stuck ∨ j < j')) ∨
+           (finishHeader (ctxAtHeader (H.take j2) OP FIN L7 CO) e2 =
+                OUT e' ∧
               e'.pending = body)) := by
         intro j2 e2 h1 h2 hf2 hs2 hp2
-        by_cases hlt : j2 < f.header.length
-        · refine ⟨e2, hf2, hs2, Or.inl ⟨j2, _, _, _, _, hlt, Or.inr ⟨by omega, rfl⟩,
-            finishHeader_incomplete f j2 hlt _ _ _ e2, hp2, Or.inr (by omega)⟩⟩
-        · have : j2 = f.header.length := by omega
+        by_cases hlt : j2 < H.length
+        · refine ⟨e2, hf2, hs2, Or.inl ⟨j2, _, _, _, _, hlt, hCO,
+            hinc j2 hlt e2, hp2, Or.inr (by omega)⟩⟩
+        · have : j2 = H.length := by omega
           subst this
           refine ⟨e2, hf2, hs2, Or.inr ⟨?_, ?_⟩⟩
-          · rw [List.take_length]; exact finishHeader_complete f co hok e2
+          · rw [List.take_length]; exact hcomp e2
           · rw [hp2]; simp
-      by_cases hcond : (f.l7 = 126 ∨ f.l7 = 127) ∧ (f.header.length : Int) - ((j + t : Nat) : Int) > 0
+      by_cases hcond : (L7 = 126 ∨ L7 = 127) ∧ (H.length : Int) - ((j + t : Nat) : Int) > 0
       · simp only [hcond, and_self, if_true]
-        obtain ⟨hff2, hs2, hc2⟩ := Env.read_cases e1 (j + t) ((f.header.length : Int) - ((j + t : Nat) : Int))
+        obtain ⟨hff2, hs2, hc2⟩ := Env.read_cases e1 (j + t) ((H.length : Int) - ((j + t : Nat) : Int))
           (by omega) (by omega) hff1 hs1
-        generalize hr2 : e1.read (j + t) ((f.header.length : Int) - ((j + t : Nat) : Int)) = r2 at hff2 hs2 hc2
+        generalize hr2 : e1.read (j + t) ((H.length : Int) - ((j + t : Nat) : Int)) = r2 at hff2 hs2 hc2
         obtain ⟨o2, e2⟩ := r2
         simp only at hff2 hs2 hc2
         rcases hc2 with ⟨ho2, hp2, _⟩ | ⟨t2, ht20, ht2N, ht2l, ho2, hp2⟩
         · subst ho2
           simp only
-          refine ⟨e2, hff2, hs2, Or.inl ⟨j + t, _, _, _, _, by omega, Or.inr ⟨by omega, rfl⟩, rfl, ?_,
+          refine ⟨e2, hff2, hs2, Or.inl ⟨j + t, _, _, _, _, by omega, hCO, rfl, ?_,
             Or.inr (by omega)⟩⟩
           rw [hp2, hp1, hdrop]
         · subst ho2
           simp only
-          have hp1' : e1.pending = f.header.drop (j + t) ++ body := by rw [hp1, hdrop]
-          have htake2 : e1.pending.take t2 = (f.header.drop (j + t)).take t2 := by
+          have hp1' : e1.pending = H.drop (j + t) ++ body := by rw [hp1, hdrop]
+          have htake2 : e1.pending.take t2 = (H.drop (j + t)).take t2 := by
             rw [hp1', List.take_append_of_le_length (by simp; omega)]
-          have hdrop2 : e1.pending.drop t2 = f.header.drop (j + t + t2) ++ body := by
+          have hdrop2 : e1.pending.drop t2 = H.drop (j + t + t2) ++ body := by
             rw [hp1', List.drop_append_of_le_length (by simp; omega), List.drop_drop]
           rw [htake2, take_append_take_drop]
           exact hfin (j + t + t2) e2 (by omega) (by omega) hff2 hs2 (by rw [hp2, hdrop2])
       · simp only [hcond, if_false]
         exact hfin (j + t) e1 (by omega) htj hff1 hs1 (by rw [hp1, hdrop])
+
+
+/-- `readHeader` on a strict prefix of the header of a frame whose header is acceptable (valid data /
+ping / pong frames, and Close frames) -/
+theorem readHeader_cases_hok (f : Frame) (co co' : Byte) (j : Nat) (opc fin : Byte) (pl : Nat)
+    (e : Env) (body : List Byte) (hok : f.hok co) (hj : j < f.header.length)
+    (hco : co' = co ∨ co' = f.nextCo co)
+    (hpend : e.pending = f.header.drop j ++ body) (hff : e.FaultFree) (hs : e.Safe) :
+    ∃ e', e'.FaultFree ∧ e'.Safe ∧
+      ((∃ j' opc' fin' pl' co'', j' < f.header.length ∧ (co'' = co ∨ co'' = f.nextCo co) ∧
+          readHeader (ctxAtHeader (f.header.take j) opc fin pl co') e =
+            ⟨ctxAtHeader (f.header.take j') opc' fin' pl' co'', e', .headerPending, .again, []⟩ ∧
+          e'.pending = f.header.drop j' ++ body ∧ (e.Stuck ∨ j < j')) ∨
+       (readHeader (ctxAtHeader (f.header.take j) opc fin pl co') e =
+            ⟨ctxInFrame f co 0 [] [] (some f.header.length) .headerPending, e', .dataNeeded, .again, []⟩ ∧
+          e'.pending = body)) := by
+  obtain ⟨hH14, hH6⟩ := header_length_le f
+  exact readHeader_generic f.header (f.effOp co) f.fin f.l7 (f.nextCo co)
+    (fun c => c = co ∨ c = f.nextCo co)
+    (fun e' => ⟨ctxInFrame f co 0 [] [] (some f.header.length) .headerPending, e', .dataNeeded, .again, []⟩)
+    ⟨hH6, hH14⟩ (fun j _ => hdrWant_take f j) (fun j hj opc fin pl co' => parse2_short f j hj opc fin pl co')
+    (fun j hj _ opc fin pl co' hc => parse2_hok f co co' hok j hj hc opc fin pl) (Or.inr rfl)
+    (fun j hj e => finishHeader_incomplete f j hj _ _ _ e) (fun e => finishHeader_complete' f co hok.1 e)
+    j opc fin pl co' e body hj hco hpend hff hs
+
+/-- what `readHeader` does on a strict prefix of the header of a valid frame -/
+theorem readHeader_cases (f : Frame) (fs : List Frame) (co co' : Byte) (j : Nat) (opc fin : Byte) (pl : Nat)
+    (e : Env) (body : List Byte) (hok : f.ok co) (hj : j < f.header.length)
+    (hco : co' = co ∨ co' = f.nextCo co)
+    (hpend : e.pending = f.header.drop j ++ body) (hff : e.FaultFree) (hs : e.Safe) :
+    ∃ e', e'.FaultFree ∧ e'.Safe ∧
+      ((∃ j' opc' fin' pl' co'', j' < f.header.length ∧ (co'' = co ∨ co'' = f.nextCo co) ∧
+          readHeader (ctxAtHeader (f.header.take j) opc fin pl co') e =
+            ⟨ctxAtHeader (f.header.take j') opc' fin' pl' co'', e', .headerPending, .again, []⟩ ∧
+          e'.pending = f.header.drop j' ++ body ∧ (e.Stuck ∨ j < j')) ∨
+       (readHeader (ctxAtHeader (f.header.take j) opc fin pl co') e =
+            ⟨ctxInFrame f co 0 [] [] (some f.header.length) .headerPending, e', .dataNeeded, .again, []⟩ ∧
+          e'.pending = body)) := by
+  obtain ⟨hH14, hH6⟩ := header_length_le f
+  exact readHeader_generic f.header (f.effOp co) f.fin f.l7 (f.nextCo co)
+    (fun c => c = co ∨ c = f.nextCo co)
+    (fun e' => ⟨ctxInFrame f co 0 [] [] (some f.header.length) .headerPending, e', .dataNeeded, .again, []⟩)
+    ⟨hH6, hH14⟩ (fun j _ => hdrWant_take f j) (fun j hj opc fin pl co' => parse2_short f j hj opc fin pl co')
+    (fun j hj _ opc fin pl co' hc => parse2_ok f co co' hok j hj hc opc fin pl) (Or.inr rfl)
+    (fun j hj e => finishHeader_incomplete f j hj _ _ _ e) (fun e => finishHeader_complete' f co hok.1 e)
+    j opc fin pl co' e body hj hco hpend hff hs
 
 end VncModel.Ws
